@@ -21,5 +21,26 @@ HARNESSES = [
          loops=["sqfs_meta_reader_read"], defines={"MR_CAP": 1048576},
          flags=["--arrays-uf-always"]),
     dict(name="dr_block", file="dr_block.c", label="proved", fp=_FP_DR, timeout=170,
-         malloc_fail=True, flags=["--arrays-uf-always"], cases=_bs_cases()),
+         malloc_fail=True, flags=["--arrays-uf-always"]),
+    dict(name="dr_frag", file="dr_frag.c", label="proved", fp=_FP_DR, timeout=170,
+         malloc_fail=True, flags=["--arrays-uf-always"]),
+    dict(name="dr_loadfrag", file="dr_loadfrag.c", label="proved", fp=_FP_DR, timeout=170,
+         malloc_fail=True, flags=["--arrays-uf-always"]),
+    dict(name="xattr_value", file="xattr_value.c", label="proved", timeout=170,
+         fp={"read_at": "stub_read_at", "destroy": "xattr_reader_destroy",
+             "copy": "xattr_reader_copy"},
+         malloc_fail=True, flags=["--arrays-uf-always"]),
+    dict(name="frag_lookup", file="frag_lookup.c", label="proved", timeout=170,
+         fp={"read_at": "stub_read_at", "destroy": "frag_table_destroy",
+             "copy": "frag_table_copy"},
+         flags=["--arrays-uf-always"]),
+    dict(name="id_lookup", file="id_lookup.c", label="proved", timeout=170,
+         fp={"read_at": "stub_read_at", "destroy": "id_table_destroy",
+             "copy": "id_table_copy"},
+         flags=["--arrays-uf-always"]),
+    # --conversion-check is off here: inum_base + (s16)inode_diff converts a
+    # negative difference to unsigned on purpose (well defined, modulo 2^32)
+    dict(name="readdir", file="readdir.c", label="proved", timeout=170,
+         nochecks=["--conversion-check"],
+         malloc_fail=True, flags=["--arrays-uf-always"]),
 ]
